@@ -124,6 +124,8 @@ type run struct {
 	fb         map[fianoUEFI.Firmware]pkgbytes.Range // what the walker (fallback on) reports per node
 	srcCases   [3]int
 	srcSingles int
+	// volumes.go
+	volVis []visited // what the walker (no fallback) reports, in visit order
 }
 
 func (r *run) physOf(off uint64) uint64 { return off + fourGiB - r.size }
@@ -1049,6 +1051,10 @@ func (r *run) intel() {
 		} else {
 			got, why := r.dataRanges(d, bi)
 			checkRef("FITAll", in, got, why, want, wantB)
+			// the volumes the entries of this type lie in (volumes.go)
+			if why == "" && sameRanges(got, want) && (!r.im.heavy || (r.im.pristine && len(want) <= 2)) && (!r.im.manifests || ctx.Rng.Intn(4) == 0) {
+				r.volumeOfList(fmt.Sprintf("FITAll(%#x)", e.typ), volQuery{"the data of all FIT entries of one type", []volRef{{true, want}}}, inteldata.FITAll(fit.EntryType(e.typ)), nil)
+			}
 		}
 		st, bi = r.newState()
 		d, err = inteldata.FITFirst(fit.EntryType(e.typ)).Data(bg, st)
@@ -1117,6 +1123,10 @@ func (r *run) intel() {
 		} else {
 			got, why := r.dataRanges(d, bi)
 			checkRef("IBB", map[string]interface{}{}, got, why, want, nil)
+			// the volumes of the IBB segments (volumes.go)
+			if why == "" && sameRanges(got, want) && (!r.im.heavy || len(want) <= 3) {
+				r.volumeOfList("IBB", volQuery{"the hashed IBB segments of the Boot Policy Manifest", []volRef{{true, want}}}, inteldata.IBB{}, nil)
+			}
 		}
 		_ = bpmFit
 	})
